@@ -38,7 +38,7 @@ PROPS = {
     },
     "C09": {
         "quick": {"shards": 8, "timeout_s": 900, "floors": {"distinct_nontrivial": 5000, "steps_compared": 50000, "ret/add_track/duplicate-rejected": 100, "ret/merge_owned/err": 100, "ret/merge_external/err": 100, "add_missing_vs_external_build_compared": 100, "abstract_states": 500}},
-        "thorough": {"shards": 16, "timeout_s": 3400, "floors": {"distinct_nontrivial": 200000}, "engines": ["miri:c09"]},
+        "thorough": {"shards": 16, "timeout_s": 3400, "floors": {"distinct_nontrivial": 200000}, "engines": ["miri:c09", "tsan:c09"]},
     },
     "C10": {
         "replay_repeat": 20,
@@ -77,7 +77,7 @@ PROPS = {
     "C05": {
         "ratio_ceilings": {"tie_divergences": ["calls_compared", 0.001]},
         "quick": {"shards": 8, "timeout_s": 1200, "floors": {"distinct_nontrivial": 500, "calls_compared": 20000, "chunk_arrival_order_signatures": 100}},
-        "thorough": {"shards": 16, "timeout_s": 3400, "floors": {"distinct_nontrivial": 20000}, "engines": ["miri:c05"]},
+        "thorough": {"shards": 16, "timeout_s": 3400, "floors": {"distinct_nontrivial": 20000}, "engines": ["miri:c05", "tsan:c05"]},
     },
     "C06": {
         "ratio_ceilings": {"tie_divergences": ["scene_calls_compared_with_simple_tracker", 0.001], "grouping_divergences_in_consumer_mode_unexplained": ["scene_calls_compared_with_simple_tracker", 0.001]},
